@@ -266,7 +266,7 @@ def doclevel_space():
     cases = []
     for pi, pol in enumerate(POLICIES):
         for present in itertools.product([0, 1], repeat=4):
-            for extra in ((), ("U",), ("U", "V")):
+            for extra in ((), ("U",), ("U", "V"), ("U=null",), ("U=false", "V=[]"), ('U=""', "V=null")):     # undeclared keys, with every kind of value
                 for dup in (False, True):
                     for mistype in (False, True):
                         for null_req in (False, True):
@@ -295,8 +295,10 @@ def check_doclevel(case) -> Res:
             assigns.append((k, val))
             if dup and k == "A":
                 assigns.append((k, '"a2"'))
-    for u in extra:
-        assigns.append((u, "1"))
+    extra_vals = [(u.split("=", 1) + ["1"])[:2] for u in extra]
+    extra = tuple(u for u, _ in extra_vals)
+    for u, uv in extra_vals:
+        assigns.append((u, uv))
     if not assigns:
         assigns.append(("A", '"a"'))
     # effective value per field as the documented reader sees it: the last assignment wins, null counts as absent
